@@ -73,24 +73,46 @@ func run(pat pattern.Pattern, n ast.Node) (outcome, pmsg, state string) {
 }
 
 // directed cases: the defects recorded in DESIGN section 7 and close relatives
-var directed = []struct{ pat, src string }{
-	{`(BinaryExpr z@(Ident _) "+" (Or (CallExpr (Binding "x" (Ident _)) []) (CallExpr _ _)))`, `a + f(1)`},
-	{`(BinaryExpr (Not (BinaryExpr x@(Ident _) "-" _)) "+" _)`, `(a*b)+c`},
-	{`(BinaryExpr (Ident name) "+" (Ident name))`, `a + a`},
-	{`(BinaryExpr (BinaryExpr _ op _) op _)`, `a + b + c`},
-	{`(BinaryExpr x@(Ident _) "+" x)`, `a + a`},
-	{`(BinaryExpr x@(Ident _) "+" x)`, `a + b`},
-	{`(BinaryExpr x "+" (CallExpr _ [x]))`, `(a) + f(a)`},
-	{`(Or (BinaryExpr (Or x@(Ident _)) "-" _) (BinaryExpr _ "+" y))`, `a + b`},
-	{`(Or (BinaryExpr (Or (Binding "x" (Ident _)) "q") "-" _) (BinaryExpr y "+" _))`, `a + b`},
-	{`(CallExpr f [x x])`, `f(a, a)`},
-	{`(CallExpr f x:x:[])`, `f(a, b)`},
-	{`(CallExpr (Binding "f" (Ident _)) (Binding "f" (Ident _)))`, `f(f)`},
-	{`(Binding "x" (Binding "x" (Ident _)))`, `a`},
-	{`(BinaryExpr (Or (Ident "zz") x@(Ident "a")) "+" (Or (Ident x) y@(Ident _)))`, `a + a`},
-	{`(CallExpr _ (Or [x@(Ident _) (BasicLit _ _)] [y z]))`, `f(a, b)`},
-	{`(Not (Or (BinaryExpr x "-" _) (BinaryExpr _ "*" y)))`, `a + b`},
-	{`(BinaryExpr (Not (Not (BinaryExpr x "+" _))) "*" x)`, `(a+b)*c`},
+// kind of source: "" expression (target = the expression), "stmt" (target = first statement of a function
+// body), "decl" (target = the first function declaration)
+var directed = []struct{ pat, src, kind string }{
+	// a name whose first occurrence meets an ABSENT child is bound (to nil): a later occurrence must recall it
+	{`(ForStmt x _ x _)`, `for ; c; i++ {}`, "stmt"},
+	{`(IfStmt x _ _ x)`, `if c {} else {}`, "stmt"},
+	{`(ForStmt (Binding "x" nil) _ (Binding "x" nil) _)`, `for ; c; i++ {}`, "stmt"},
+	{`(Or (ForStmt x _ x _) (EmptyStmt))`, `for ; c; i++ {}`, "stmt"},
+	{`(Or (IfStmt "zz" _ _ _) (IfStmt x _ _ x))`, `if c {} else {}`, "stmt"},
+	{`(ForStmt x (Not (Ident "zz")) x _)`, `for ; c; i++ {}`, "stmt"},
+	{`(IfStmt x (Not (ForStmt x _ x _)) _ _)`, `if c {}`, "stmt"},
+	{`(ForStmt x _ x@(IncDecStmt _ _) _)`, `for ; c; i++ {}`, "stmt"},
+	{`(ForStmt x _ (Binding "x" (IncDecStmt _ _)) _)`, `for ; c; i++ {}`, "stmt"},
+	{`(IfStmt x c [(ForStmt x _ y _)] x)`, `if c { for ; c; i++ {} } else {}`, "stmt"},
+	{`(FuncDecl x _ _ x)`, `func f() { return }`, "decl"},
+	{`(FuncDecl x _ (FuncType _ x) _)`, `func f() { return }`, "decl"},
+	// controls: both absent, both present (different / equal), present then absent
+	{`(ForStmt x _ x _)`, `for c {}`, "stmt"},
+	{`(ForStmt x _ x _)`, `for i := 0; c; i++ {}`, "stmt"},
+	{`(ForStmt x _ x _)`, `for i++; c; i++ {}`, "stmt"},
+	{`(ForStmt x _ x _)`, `for i := 0; c; {}`, "stmt"},
+	{`(IfStmt x _ _ x)`, `if c {}`, "stmt"},
+	{`(FuncDecl x _ _ x)`, `func f()`, "decl"},
+	{`(BinaryExpr z@(Ident _) "+" (Or (CallExpr (Binding "x" (Ident _)) []) (CallExpr _ _)))`, `a + f(1)`, ""},
+	{`(BinaryExpr (Not (BinaryExpr x@(Ident _) "-" _)) "+" _)`, `(a*b)+c`, ""},
+	{`(BinaryExpr (Ident name) "+" (Ident name))`, `a + a`, ""},
+	{`(BinaryExpr (BinaryExpr _ op _) op _)`, `a + b + c`, ""},
+	{`(BinaryExpr x@(Ident _) "+" x)`, `a + a`, ""},
+	{`(BinaryExpr x@(Ident _) "+" x)`, `a + b`, ""},
+	{`(BinaryExpr x "+" (CallExpr _ [x]))`, `(a) + f(a)`, ""},
+	{`(Or (BinaryExpr (Or x@(Ident _)) "-" _) (BinaryExpr _ "+" y))`, `a + b`, ""},
+	{`(Or (BinaryExpr (Or (Binding "x" (Ident _)) "q") "-" _) (BinaryExpr y "+" _))`, `a + b`, ""},
+	{`(CallExpr f [x x])`, `f(a, a)`, ""},
+	{`(CallExpr f x:x:[])`, `f(a, b)`, ""},
+	{`(CallExpr (Binding "f" (Ident _)) (Binding "f" (Ident _)))`, `f(f)`, ""},
+	{`(Binding "x" (Binding "x" (Ident _)))`, `a`, ""},
+	{`(BinaryExpr (Or (Ident "zz") x@(Ident "a")) "+" (Or (Ident x) y@(Ident _)))`, `a + a`, ""},
+	{`(CallExpr _ (Or [x@(Ident _) (BasicLit _ _)] [y z]))`, `f(a, b)`, ""},
+	{`(Not (Or (BinaryExpr x "-" _) (BinaryExpr _ "*" y)))`, `a + b`, ""},
+	{`(BinaryExpr (Not (Not (BinaryExpr x "+" _))) "*" x)`, `(a+b)*c`, ""},
 }
 
 func main() {
@@ -156,14 +178,32 @@ func main() {
 
 	// 1. directed cases
 	for _, d := range directed {
-		nodes, err := parseNodes(fset, "package p\nfunc _() {\n_ = "+d.src+"\n}\n")
+		src := "package p\nfunc _() {\n_ = " + d.src + "\n}\n"
+		switch d.kind {
+		case "stmt":
+			src = "package p\nfunc _() {\n" + d.src + "\n}\n"
+		case "decl":
+			src = "package p\n" + d.src + "\n"
+		}
+		nodes, err := parseNodes(fset, src)
 		if err != nil {
 			panic(err)
 		}
 		var target ast.Node
 		for _, n := range nodes {
-			if as, ok := n.(*ast.AssignStmt); ok {
-				target = as.Rhs[0]
+			switch d.kind {
+			case "":
+				if as, ok := n.(*ast.AssignStmt); ok && target == nil {
+					target = as.Rhs[0]
+				}
+			case "stmt":
+				if fd, ok := n.(*ast.FuncDecl); ok && target == nil {
+					target = fd.Body.List[0]
+				}
+			case "decl":
+				if fd, ok := n.(*ast.FuncDecl); ok && target == nil {
+					target = fd
+				}
 			}
 		}
 		flipped := ""
